@@ -35,28 +35,35 @@ def PS.withHeap (s : PS) (h : Heap) : PS := { s with o := { s.o with heap := h }
 
 /-! ### BodyReader -/
 
+/-- append, first half: fill the spare capacity of the LAST buffer (`cap - len` bytes at most); returns how
+many of the `n` bytes went in -/
+def fillLast (h : Heap) : List BBuf → Nat → Heap × List BBuf × Nat
+  | [], _ => (h, [], 0)
+  | [b], n =>
+    if b.cap - b.len > 0 then
+      let t := if b.cap - b.len > n then n else b.cap - b.len
+      (h.touch b.id none, [{ b with len := b.len + t }], t)
+    else (h, [b], 0)
+  | b :: b2 :: rest, n =>
+    let (h, rest', t) := fillLast h (b2 :: rest) n
+    (h, b :: rest', t)
+
+/-- the data of OnBody lies in the parser cache when there is one -/
+def touchSrc (h : Heap) : Option Nat → Heap
+  | some id => h.touch id none
+  | none => h
+
 /-- BodyReader.append(data) with len(data) = n; `src` = pooled buffer the data lies in (the parser
 cache), `capOf` = capacity the allocator gives a Malloc(size). `false` = ErrTooLong -/
 def brAppend (capOf : Nat → Nat) (maxBody : Nat) (h : Heap) (br : BR) (src : Option Nat) (n : Nat) : Heap × BR × Bool :=
   if n == 0 then (h, br, true) else
   if maxBody > 0 && n + br.left > maxBody then (h, br, false) else
-  let h := match src with | some id => h.touch id none | none => h
-  let br := { br with left := br.left + n }
-  match br.bufs.getLast? with
-  | none =>
-    let (h, id) := h.malloc n
-    (h.touch id none, { br with bufs := [⟨id, n, capOf n⟩] }, true)
-  | some last =>
-    let bLeft := last.cap - last.len
-    let take := if bLeft > n then n else bLeft
-    let (h, bufs) : Heap × List BBuf :=
-      if bLeft > 0 then (h.touch last.id none, br.bufs.dropLast ++ [{ last with len := last.len + take }])
-      else (h, br.bufs)
-    let rem := if bLeft > 0 then n - take else n
-    if rem > 0 then
-      let (h, id) := h.malloc rem
-      (h.touch id none, { br with bufs := bufs ++ [⟨id, rem, capOf rem⟩] }, true)
-    else (h, { br with bufs := bufs }, true)
+  let p := fillLast (touchSrc h src) br.bufs n
+  let rem := n - p.2.2
+  if rem > 0 then
+    let m := p.1.malloc rem
+    (m.1.touch m.2 none, { br with left := br.left + n, bufs := p.2.1 ++ [⟨m.2, rem, capOf rem⟩] }, true)
+  else (p.1, { br with left := br.left + n, bufs := p.2.1 }, true)
 
 /-- the copy loop of BodyReader.Read(p), len(p) = need -/
 def brReadLoop : Nat → Heap → BR → Nat → Nat → Heap × BR × Nat
@@ -110,29 +117,27 @@ structure Handler where
   ops : List HOp := []
   fin : Env := {}
 
-/-- the handler body: `o` is the response twin (its heap is the shared heap); after every body operation
-the ghost snapshot of the foreign ids is refreshed (the response does not own them) -/
+/-- the handler body: `o` is the response twin (its heap is the shared heap) -/
 def runHandler : O → BR → List HOp → O × BR × List (Nat × Bool)
   | o, br, [] => (o, br, [])
   | o, br, .read n :: rest =>
     let (h, br, c, eof) := brRead o.heap br n
-    let (o, br, out) := runHandler { o with heap := { h with snap := h.live } } br rest
+    let (o, br, out) := runHandler { o with heap := h } br rest
     (o, br, (c, eof) :: out)
   | o, br, .close :: rest =>
     let (h, br) := brClose o.heap br
-    runHandler { o with heap := { h with snap := h.live } } br rest
+    runHandler { o with heap := h } br rest
   | o, br, .resp e op :: rest => runHandler (step e o op).1 br rest
 
 /-- OnComplete: handler, flushResponse with releaseRequest between the flush and releaseResponse -/
 def complete (s : PS) (hd : Handler) : PS × List (Nat × Bool) :=
   let br := s.body.getD {}
   let h := s.heap
-  -- the response lives inside the handler call; ids below `base` are not its business
-  let o : O := { heap := { h with base := h.next, snap := h.live } }
+  let o : O := { heap := h }
   let (o, br, out) := runHandler o br hd.ops
   let o := (finishFlush hd.fin o).1
   let (h, _) := brClose o.heap br
-  let o := release { o with heap := { h with snap := h.live } }
+  let o := release { o with heap := h }
   ({ s with body := none, o := { heap := o.heap } }, out)
 
 /-- the events of one Parse call -/
@@ -183,12 +188,18 @@ def parse (capOf : Nat → Nat) (maxBody rl : Nat) (hd : Handler) (s : PS) (n : 
     let (s, out) := events capOf maxBody hd s res.evs
     if res.err then (s, .err, out) else (parseExit s total res.left, .ok, out)
 
+/-- Processor.Close → Clean → releaseRequest of the request under construction -/
+def closeBody (s : PS) : Heap :=
+  match s.body with | some br => (brClose s.heap br).1 | none => s.heap
+
+def freeCache (h : Heap) : Option Buf → Heap
+  | some (id, _) => h.free id
+  | none => h
+
 /-- Parser.CloseAndClean: Processor.Close (releases the request under construction), frees the cache -/
 def closeAndClean (s : PS) : PS :=
   if s.closed then s else
-  let h := match s.body with | some br => (brClose s.heap br).1 | none => s.heap
-  let h := match s.cache with | some (id, _) => h.free id | none => h
-  { closed := true, cache := none, body := none, o := { s.o with heap := h } }
+  { closed := true, cache := none, body := none, o := { s.o with heap := freeCache (closeBody s) s.cache } }
 
 inductive POp
   | parse (n : Nat) (res : ParseRes) | close
